@@ -1933,4 +1933,313 @@ theorem invC_run {c : Conn} (h : InvC c) (ops : List Op) : InvC (run c ops) :=
 theorem invC_reachable (cm b : Nat) (ops : List Op) : InvC (run (init cm b) ops) :=
   invC_run (invC_init cm b) ops
 
+/-! ## 9. The table of causes: computation lemmas -/
+
+theorem dropConsTx_of_lookup {c : Conn} {qid : Nat} {q : CQ} (hq : lookupN qid c.cqs = some q) :
+    dropConsTx c qid = { c with cqs := setN qid { q with txAlive := false } c.cqs } := by
+  unfold dropConsTx; rw [hq]
+
+/-- A message to a live receiver followed by dropping the sender. -/
+theorem send_drop_eq {c : Conn} {qid : Nat} {q : CQ} (hq : lookupN qid c.cqs = some q)
+    (hrx : q.rxAlive = true) (m : CMsg) :
+    dropConsTx (sendCons c qid m).1 qid =
+      { c with cqs := setN qid { q with msgs := q.msgs ++ [m], txAlive := false } c.cqs } ∧
+    (sendCons c qid m).2 = none := by
+  rw [sendCons_ok hq hrx]
+  refine ⟨?_, rfl⟩
+  dsimp only
+  rw [dropConsTx_of_lookup (q := { q with msgs := q.msgs ++ [m] }) (lookupN_setN_self _ _ _)]
+  dsimp only
+  rw [setN_setN]
+
+theorem notify_cons_ok {c : Conn} {qid : Nat} {msg : CMsg} (h : (sendCons c qid msg).2 = none)
+    (t : Bytes) (more : List (Bytes × Nat)) :
+    notifyConsumers msg c ((t, qid) :: more) =
+      notifyConsumers msg (dropConsTx (sendCons c qid msg).1 qid) more := by
+  rw [notifyConsumers]
+  split
+  · rename_i heq; rw [heq] at h; cases h
+  · rename_i heq; rw [heq]
+
+theorem notifyConsumers_spec (msg : CMsg) (c : Conn) (consumers : List (Bytes × Nat))
+    (hcons : ∀ p ∈ consumers, ∃ q, lookupN p.2 c.cqs = some q ∧ q.rxAlive = true)
+    (hnodup : (consumers.map (·.2)).Nodup) :
+    (notifyConsumers msg c consumers).2 = none ∧
+    (∀ p ∈ consumers, ∀ q, lookupN p.2 c.cqs = some q →
+      lookupN p.2 (notifyConsumers msg c consumers).1.cqs =
+        some { q with msgs := q.msgs ++ [msg], txAlive := false }) ∧
+    (∀ qid, qid ∉ consumers.map (·.2) →
+      lookupN qid (notifyConsumers msg c consumers).1.cqs = lookupN qid c.cqs) := by
+  induction consumers generalizing c with
+  | nil => exact ⟨rfl, fun p hp => (by cases hp), fun _ _ => rfl⟩
+  | cons x rest ih =>
+    obtain ⟨t, qid⟩ := x
+    simp only [List.map_cons, List.nodup_cons] at hnodup
+    obtain ⟨q0, hq0, hrx0⟩ := hcons (t, qid) List.mem_cons_self
+    obtain ⟨e1, e2⟩ := send_drop_eq hq0 hrx0 msg
+    rw [notify_cons_ok e2, e1]
+    have hlk : ∀ x, lookupN x ({ c with cqs := setN qid { q0 with msgs := q0.msgs ++ [msg], txAlive := false } c.cqs } : Conn).cqs =
+        if qid = x then some { q0 with msgs := q0.msgs ++ [msg], txAlive := false } else lookupN x c.cqs :=
+      fun x => lookupN_setN x qid _ c.cqs
+    have hne : ∀ p ∈ rest, qid ≠ p.2 := fun p hp e =>
+      hnodup.1 (List.mem_map.mpr ⟨p, hp, e.symm⟩)
+    obtain ⟨a1, a2, a3⟩ := ih { c with cqs := setN qid { q0 with msgs := q0.msgs ++ [msg], txAlive := false } c.cqs }
+      (fun p hp => by
+        obtain ⟨q, hq, hrx⟩ := hcons p (List.mem_cons_of_mem _ hp)
+        exact ⟨q, by rw [hlk, if_neg (hne p hp)]; exact hq, hrx⟩) hnodup.2
+    refine ⟨a1, fun p hp q hq => ?_, fun x hx => ?_⟩
+    · rcases List.mem_cons.mp hp with e | hp
+      · subst e
+        rw [hq0] at hq; cases hq
+        rw [a3 qid hnodup.1, hlk, if_pos rfl]
+      · exact a2 p hp q (by rw [hlk, if_neg (hne p hp)]; exact hq)
+    · simp only [List.map_cons, List.mem_cons, not_or] at hx
+      rw [a3 x hx.2, hlk, if_neg (fun e => hx.1 e.symm)]
+
+theorem sendReply_ok {c : Conn} {lid : Nat} (ha : (getLink c lid).clientAlive = true)
+    (hr : (getLink c lid).replies.length < 2) (r : Reply) :
+    sendReply c lid r =
+      (setLink c lid { (getLink c lid) with replies := (getLink c lid).replies ++ [r] }, none) := by
+  unfold sendReply
+  dsimp only
+  have h2 : ¬ (getLink c lid).replies.length ≥ 2 := by omega
+  simp [ha, h2]
+
+theorem lookup_dropConsTx_dead {c : Conn} {x : Nat} {q : CQ} (hq : lookupN x c.cqs = some q)
+    (hd : q.txAlive = false) (y : Nat) : lookupN x (dropConsTx c y).cqs = some q := by
+  unfold dropConsTx
+  split
+  · rename_i q' hq'
+    show lookupN x (setN y { q' with txAlive := false } c.cqs) = some q
+    rw [lookupN_setN]
+    split
+    · rename_i e; subst e
+      rw [hq] at hq'; cases hq'
+      cases q; simp only at hd; subst hd; rfl
+    · exact hq
+  · exact hq
+
+theorem lookup_dropSlotEnds_dead {c : Conn} {x : Nat} {q : CQ} (hq : lookupN x c.cqs = some q)
+    (hd : q.txAlive = false) (s : Slot) : lookupN x (dropSlotEnds c s).cqs = some q := by
+  unfold dropSlotEnds
+  dsimp only
+  apply foldl_invariant (fun a : Conn => lookupN x a.cqs = some q)
+  · intro a p ha; exact lookup_dropConsTx_dead ha hd _
+  · exact hq
+
+/-- In `Steady`, a channel method whose handling stays in `Steady` is exactly
+    `processChannelMethod`. -/
+theorem process_chan_steady {c : Conn} (hs : c.st = .steady) {n : Nat} (hn : n ≠ 0) (cls mid : Nat)
+    (fields : List Field) (dc df : Bytes)
+    (hst : (processChannelMethod c n cls mid fields dc).1.st = .steady) :
+    process c (.method n cls mid fields) dc df = processChannelMethod c n cls mid fields dc := by
+  rw [process_chan hs hn, hst]
+  simp
+
+theorem same_closeSlot (c : Conn) (n : Nat) (slot : Slot) (r : Reply) (m : CMsg) (fin : Conn → Conn)
+    (hf : ∀ x, (fin x).st = x.st) : (closeSlot c n slot r m fin).1.st = c.st := by
+  unfold closeSlot
+  have h1 := same_sendReply (removeSlot c n) slot.lid r
+  split
+  · rename_i heq; rw [heq] at h1
+    exact ((same_dropSlotEnds _ slot).st).trans h1.st
+  · rename_i c2 heq; rw [heq] at h1
+    have h2 := same_notifyConsumers m c2 slot.consumers
+    split
+    · rename_i heq2; rw [heq2] at h2
+      exact ((same_dropSlotEnds _ slot).st).trans (h2.st.trans h1.st)
+    · rename_i heq2; rw [heq2] at h2
+      exact ((same_dropSlotEnds _ slot).st).trans ((hf _).trans (h2.st.trans h1.st))
+
+/-- Channel.CloseOk with a live caller and live consumers. -/
+theorem process_closeOk_spec (c : Conn) (n : Nat) (fields : List Field) (dc df : Bytes) (slot : Slot)
+    (hs : c.st = .steady) (hn : n ≠ 0) (hslot : lookupN n c.slots = some slot)
+    (halive : (getLink c slot.lid).clientAlive = true) (hroom : (getLink c slot.lid).replies.length < 2)
+    (hcons : ∀ p ∈ slot.consumers, ∃ q, lookupN p.2 c.cqs = some q ∧ q.rxAlive = true)
+    (hnodup : (slot.consumers.map (·.2)).Nodup) :
+    (process c (.method n 20 41 fields) dc df).2 = none ∧
+    ∀ p ∈ slot.consumers, ∀ q, lookupN p.2 c.cqs = some q →
+      lookupN p.2 (process c (.method n 20 41 fields) dc df).1.cqs =
+        some { q with msgs := q.msgs ++ [.clientClosedChannel], txAlive := false } := by
+  have hst : (processChannelMethod c n 20 41 fields dc).1.st = .steady := by
+    rw [pcm_closeOk_eq, hslot]
+    exact (same_closeSlot c n slot _ _ id (fun _ => rfl)).trans hs
+  rw [process_chan_steady hs hn _ _ _ _ _ hst, pcm_closeOk_eq, hslot]
+  dsimp only
+  unfold closeSlot
+  rw [sendReply_ok (c := removeSlot c n) halive hroom]
+  dsimp only
+  obtain ⟨a1, a2, _⟩ := notifyConsumers_spec .clientClosedChannel
+    (setLink (removeSlot c n) slot.lid
+      { (getLink (removeSlot c n) slot.lid) with
+        replies := (getLink (removeSlot c n) slot.lid).replies ++ [.method 20 41 []] })
+    slot.consumers hcons hnodup
+  split
+  · rename_i heq; rw [heq] at a1; cases a1
+  · rename_i c3 heq
+    rw [heq] at a2
+    refine ⟨rfl, fun p hp q hq => ?_⟩
+    exact lookup_dropSlotEnds_dead (a2 p hp q hq) rfl slot
+
+theorem pcm_cancelOk_spec (c : Conn) (n : Nat) (slot : Slot) (tag dc : Bytes) (qid : Nat) (q : CQ)
+    (hslot : lookupN n c.slots = some slot)
+    (hc : lookupB tag slot.consumers = some qid) (hq : lookupN qid c.cqs = some q) (hrx : q.rxAlive = true)
+    (halive : (getLink c slot.lid).clientAlive = true) (hroom : (getLink c slot.lid).replies.length < 2) :
+    processChannelMethod c n 60 31 [.bytes tag] dc =
+      ({ (setLink (setSlot c n { slot with consumers := eraseB tag slot.consumers }) slot.lid
+            { (getLink c slot.lid) with replies := (getLink c slot.lid).replies ++ [.method 60 31 [.bytes tag]] }) with
+          cqs := setN qid { q with msgs := q.msgs ++ [.clientCancelled], txAlive := false } c.cqs }, none) := by
+  rw [pcm_cancelOk_eq, slotGet_of_lookup hslot]
+  dsimp only
+  rw [sendReply_ok (c := setSlot c n { slot with consumers := eraseB tag slot.consumers }) halive hroom]
+  dsimp only
+  rw [hc]
+  dsimp only
+  rw [send_then_drop]
+  obtain ⟨e1, e2⟩ := send_drop_eq (c := setLink (setSlot c n { slot with consumers := eraseB tag slot.consumers }) slot.lid
+      { (getLink (setSlot c n { slot with consumers := eraseB tag slot.consumers }) slot.lid) with
+        replies := (getLink (setSlot c n { slot with consumers := eraseB tag slot.consumers }) slot.lid).replies ++
+          [.method 60 31 [.bytes tag]] }) hq hrx .clientCancelled
+  rw [e1, e2]
+  rfl
+
+theorem pcm_cancel_spec (c : Conn) (n : Nat) (slot : Slot) (tag dc : Bytes) (nowait : Bool) (qid : Nat) (q : CQ)
+    (hslot : lookupN n c.slots = some slot)
+    (hc : lookupB tag slot.consumers = some qid) (hq : lookupN qid c.cqs = some q) (hrx : q.rxAlive = true) :
+    processChannelMethod c n 60 30 [.bytes tag, .bool nowait] dc =
+      ((if nowait then id else fun x => pushOut x (basicCancelOk n tag))
+        { (setSlot c n { slot with consumers := eraseB tag slot.consumers }) with
+          cqs := setN qid { q with msgs := q.msgs ++ [.serverCancelled], txAlive := false } c.cqs }, none) := by
+  rw [pcm_cancel_eq, slotGet_of_lookup hslot]
+  dsimp only
+  rw [hc]
+  dsimp only
+  rw [send_then_drop]
+  obtain ⟨e1, e2⟩ := send_drop_eq (c := setSlot c n { slot with consumers := eraseB tag slot.consumers })
+    hq hrx .serverCancelled
+  rw [e1, e2]
+  cases nowait <;> rfl
+
+theorem pcm_cancel_unknown (c : Conn) (n : Nat) (slot : Slot) (tag dc : Bytes) (nowait : Bool)
+    (hslot : lookupN n c.slots = some slot) (hc : lookupB tag slot.consumers = none) :
+    processChannelMethod c n 60 30 [.bytes tag, .bool nowait] dc =
+      (if nowait then c else pushOut c (basicCancelOk n tag), none) := by
+  rw [pcm_cancel_eq, slotGet_of_lookup hslot]
+  dsimp only
+  rw [hc]
+
+theorem process_cancelOk_spec (c : Conn) (n : Nat) (slot : Slot) (tag dc df : Bytes) (qid : Nat) (q : CQ)
+    (hs : c.st = .steady) (hn : n ≠ 0) (hslot : lookupN n c.slots = some slot)
+    (hc : lookupB tag slot.consumers = some qid) (hq : lookupN qid c.cqs = some q) (hrx : q.rxAlive = true)
+    (halive : (getLink c slot.lid).clientAlive = true) (hroom : (getLink c slot.lid).replies.length < 2) :
+    (process c (.method n 60 31 [.bytes tag]) dc df).2 = none ∧
+    lookupN qid (process c (.method n 60 31 [.bytes tag]) dc df).1.cqs =
+      some { q with msgs := q.msgs ++ [.clientCancelled], txAlive := false } ∧
+    (∃ s', lookupN n (process c (.method n 60 31 [.bytes tag]) dc df).1.slots = some s' ∧
+      lookupB tag s'.consumers = none) ∧
+    (getLink (process c (.method n 60 31 [.bytes tag]) dc df).1 slot.lid).replies =
+      (getLink c slot.lid).replies ++ [.method 60 31 [.bytes tag]] := by
+  have e := pcm_cancelOk_spec c n slot tag dc qid q hslot hc hq hrx halive hroom
+  have hst : (processChannelMethod c n 60 31 [.bytes tag] dc).1.st = .steady := by rw [e]; exact hs
+  rw [process_chan_steady hs hn _ _ _ _ _ hst, e]
+  refine ⟨rfl, lookupN_setN_self _ _ _, ⟨_, lookupN_setN_self _ _ _, lookupB_eraseB_self _ _⟩, ?_⟩
+  show (getLink (setLink (setSlot c n { slot with consumers := eraseB tag slot.consumers }) slot.lid _) slot.lid).replies = _
+  rw [getLink_setLink_self]
+
+theorem process_cancel_spec (c : Conn) (n : Nat) (slot : Slot) (tag dc df : Bytes) (nowait : Bool) (qid : Nat) (q : CQ)
+    (hs : c.st = .steady) (hn : n ≠ 0) (hslot : lookupN n c.slots = some slot)
+    (hc : lookupB tag slot.consumers = some qid) (hq : lookupN qid c.cqs = some q) (hrx : q.rxAlive = true) :
+    (process c (.method n 60 30 [.bytes tag, .bool nowait]) dc df).2 = none ∧
+    lookupN qid (process c (.method n 60 30 [.bytes tag, .bool nowait]) dc df).1.cqs =
+      some { q with msgs := q.msgs ++ [.serverCancelled], txAlive := false } ∧
+    (∃ s', lookupN n (process c (.method n 60 30 [.bytes tag, .bool nowait]) dc df).1.slots = some s' ∧
+      lookupB tag s'.consumers = none) ∧
+    (process c (.method n 60 30 [.bytes tag, .bool nowait]) dc df).1.out =
+      (if c.sealed || nowait then c.out else c.out ++ basicCancelOk n tag) := by
+  have e := pcm_cancel_spec c n slot tag dc nowait qid q hslot hc hq hrx
+  have hst : (processChannelMethod c n 60 30 [.bytes tag, .bool nowait] dc).1.st = .steady := by
+    rw [e]; cases nowait
+    · exact (pushOut_st _ _).trans hs
+    · exact hs
+  rw [process_chan_steady hs hn _ _ _ _ _ hst, e]
+  cases nowait
+  · refine ⟨rfl, ?_, ⟨{ slot with consumers := eraseB tag slot.consumers }, ?_, lookupB_eraseB_self _ _⟩, ?_⟩
+    · show lookupN qid (pushOut _ _).cqs = _
+      rw [pushOut_cqs]; exact lookupN_setN_self _ _ _
+    · show lookupN n (pushOut _ _).slots = _
+      rw [pushOut_slots]; exact lookupN_setN_self _ _ _
+    · show (pushOut _ _).out = _
+      rw [pushOut_out]
+      show (if c.sealed = true then c.out else c.out ++ basicCancelOk n tag) = _
+      cases c.sealed <;> rfl
+  · refine ⟨rfl, lookupN_setN_self _ _ _, ⟨_, lookupN_setN_self _ _ _, lookupB_eraseB_self _ _⟩, ?_⟩
+    show c.out = _
+    simp
+
+theorem process_cancel_unknown_spec (c : Conn) (n : Nat) (slot : Slot) (tag dc df : Bytes) (nowait : Bool)
+    (hs : c.st = .steady) (hn : n ≠ 0) (hslot : lookupN n c.slots = some slot)
+    (hc : lookupB tag slot.consumers = none) :
+    (process c (.method n 60 30 [.bytes tag, .bool nowait]) dc df).2 = none ∧
+    (process c (.method n 60 30 [.bytes tag, .bool nowait]) dc df).1.cqs = c.cqs ∧
+    (process c (.method n 60 30 [.bytes tag, .bool nowait]) dc df).1.out =
+      (if c.sealed || nowait then c.out else c.out ++ basicCancelOk n tag) := by
+  have e := pcm_cancel_unknown c n slot tag dc nowait hslot hc
+  have hst : (processChannelMethod c n 60 30 [.bytes tag, .bool nowait] dc).1.st = .steady := by
+    rw [e]; cases nowait
+    · exact (pushOut_st _ _).trans hs
+    · exact hs
+  rw [process_chan_steady hs hn _ _ _ _ _ hst, e]
+  cases nowait
+  · refine ⟨rfl, pushOut_cqs _ _, ?_⟩
+    show (pushOut _ _).out = _
+    rw [pushOut_out]
+    cases c.sealed <;> rfl
+  · refine ⟨rfl, rfl, ?_⟩
+    show c.out = _
+    simp
+
+theorem pcm_send_keeps (c : Conn) (n : Nat) (bytes : Bytes) :
+    (processChannelMessage c n (.send bytes)).1.slots = c.slots ∧
+    (processChannelMessage c n (.send bytes)).1.cqs = c.cqs :=
+  ⟨pushOut_slots c bytes, pushOut_cqs c bytes⟩
+
+/-! ## 10. Over every history -/
+
+/-- Registered in the table of some channel (the definition used by `Props/C11.lean`). -/
+def InTable (c : Conn) (qid : Nat) : Prop :=
+  ∃ n slot tag, lookupN n c.slots = some slot ∧ (tag, qid) ∈ slot.consumers
+
+theorem InvC.inTable_iff {c : Conn} (h : InvC c) (qid : Nat) : InTable c qid ↔ qid ∈ tbl c.slots := by
+  constructor
+  · rintro ⟨n, slot, tag, hs, hm⟩
+    exact mem_tbl.mpr ⟨(n, slot), mem_of_lookupN hs, (tag, qid), hm, rfl⟩
+  · intro hm
+    obtain ⟨⟨n, slot⟩, hp, ⟨tag, q'⟩, he, e⟩ := mem_tbl.mp hm
+    cases e
+    exact ⟨n, slot, tag, lookupN_of_mem_nodup h.sok.keys_nodup hp, he⟩
+
+theorem InvC.alive_iff {c : Conn} (h : InvC c) {qid : Nat} {q : CQ} (hq : lookupN qid c.cqs = some q) :
+    q.txAlive = true ↔ InTable c qid := by
+  rw [h.inTable_iff]
+  constructor
+  · exact h.qi.alive_reg qid q hq
+  · intro hm
+    obtain ⟨q0, hq0, ha⟩ := h.qi.reg_alive qid hm
+    rw [hq] at hq0; cases hq0; exact ha
+
+theorem InvC.no_terminal {c : Conn} (h : InvC c) {qid : Nat} {q : CQ} (hq : lookupN qid c.cqs = some q)
+    (ha : q.txAlive = true) : ∀ m ∈ q.msgs, m.isTerm = false :=
+  (h.qi.term_ok qid q hq).1 ha
+
+theorem InvC.terminal_last {c : Conn} (h : InvC c) {qid : Nat} {q : CQ} (hq : lookupN qid c.cqs = some q) :
+    ((q.msgs.filter CMsg.isTerm).length ≤ 1) ∧
+    (∀ pre m post, q.msgs = pre ++ m :: post → m.isTerm = true → post = []) :=
+  ⟨filter_length_le_one _ _ (h.qi.term_ok qid q hq).2, (h.qi.term_ok qid q hq).2⟩
+
+theorem InvC.dead_stays {c : Conn} (h : InvC c) (o : Op) {qid : Nat} {q : CQ}
+    (hq : lookupN qid c.cqs = some q) (hd : q.txAlive = false) :
+    ∃ q', lookupN qid (step c o).cqs = some q' ∧ q'.txAlive = false ∧ ∃ k, q'.msgs = q.msgs.drop k := by
+  obtain ⟨q', hq', hm⟩ := (pres_step c o h).2 qid q hq
+  exact ⟨q', hq', hm hd⟩
+
 end AmqModel.Conn
